@@ -1,7 +1,8 @@
 //! C04 — real `SyncStateV1::compute_available_needs` vs the Lean model `Corro.Needs`,
 //! plus an independent set-based oracle for the property evaluated on the real output; and the REAL
-//! `parallel_sync` (client side of a sync session: chunking, 10-per-round draining, `req_full` /
-//! `req_partials` de-duplication shared by all servers) run against fake peers vs `syncSession 10 10`.
+//! `parallel_sync` (client side of a sync session: chunking, d-per-round draining, `req_full` /
+//! `req_partials` de-duplication shared by all servers) run against fake peers vs `syncSession k d`
+//! (k, d = 10, 10 as the code stands; regenerated from the source, see `sync_consts`).
 //!
 //! One op per case.
 //!
@@ -41,7 +42,7 @@
 //!  * NOT controllable: the order of the ACTORS in one server's queue (`HashMap<ActorId, _>` built inside
 //!    `compute_available_needs`).  Output forms, chosen by the same rule on both sides from the computed needs:
 //!      `seq <srv>><actor>:<need>,…`       no server has needs for 2+ actors: the whole session in sending order;
-//!      `act <srv>[<a>:<need>,…;<a>:…]|…`  every server with 2+ actors has at most 10 queued items (it is drained
+//!      `act <srv>[<a>:<need>,…;<a>:…]|…`  every server with 2+ actors has at most d queued items (it is drained
 //!                                         in its first turn, so per actor everything is still determined):
 //!                                         per server (members order), per actor ascending, in arrival order;
 //!      `set <a>:F<lo>-<hi>,…,P<v>=<seqs>,…;…` otherwise: only the order-independent facts — per actor the
@@ -589,10 +590,30 @@ fn gen_side(rng: &mut Rng, st: &mut St, a: u64, head: u64, pool: &[u64], sloppy:
 
 // ================================================================ sessions: the real `parallel_sync`
 
-/// `chunk_range(versions, 10)` in `parallel_sync`
-const CHUNK: usize = 10;
-/// `while drained < 10`
-const DRAIN: usize = 10;
+/// The two tuning constants of the request-sending task of `parallel_sync`, as `tools/extract_c04.py`
+/// reads them off peer/mod.rs at the start of every check (the same generated file the Lean driver
+/// imports).  The REAL session uses whatever the code has; these copies only feed the form rule, the
+/// block-size oracle and the distribution tags, so a wrong extraction shows up as a diff / oracle failure.
+fn sync_consts() -> (usize, usize) {
+    static C: std::sync::OnceLock<(usize, usize)> = std::sync::OnceLock::new();
+    *C.get_or_init(|| {
+        let text = std::fs::read_to_string("/verif/lean/Corro/Gen/SyncConsts.lean").expect("Gen/SyncConsts.lean");
+        let get = |name: &str| -> usize {
+            let pat = format!("def {name} : Nat := ");
+            let at = text.find(&pat).unwrap_or_else(|| panic!("{name} missing in SyncConsts.lean"));
+            text[at + pat.len()..].split_whitespace().next().unwrap().parse().expect("number")
+        };
+        (get("syncChunkSize"), get("syncDrainPerRound"))
+    })
+}
+/// `k` of `chunk_range(versions, k)` in `parallel_sync` (10 as the code stands)
+fn chunk_k() -> usize {
+    sync_consts().0
+}
+/// `d` of `while drained < d` (10 as the code stands)
+fn drain_d() -> usize {
+    sync_consts().1
+}
 const MAX_PEERS: usize = 4;
 
 #[derive(Clone, Copy, PartialEq, Eq, Debug)]
@@ -1174,7 +1195,7 @@ fn queue_shape(avail: &BTreeMap<u64, Vec<N>>) -> (usize, usize) {
     for ns in avail.values() {
         for n in ns {
             len += match n {
-                N::Full(lo, hi) => chunk_range_versions(CrsqlDbVersion(*lo)..=CrsqlDbVersion(*hi), CHUNK).len(),
+                N::Full(lo, hi) => chunk_range_versions(CrsqlDbVersion(*lo)..=CrsqlDbVersion(*hi), chunk_k()).len(),
                 _ => 1,
             };
         }
@@ -1185,7 +1206,7 @@ fn queue_shape(avail: &BTreeMap<u64, Vec<N>>) -> (usize, usize) {
 fn form_of(shapes: &[(usize, usize)]) -> Form {
     if shapes.iter().all(|s| s.0 <= 1) {
         Form::Seq
-    } else if shapes.iter().all(|s| s.0 <= 1 || s.1 <= DRAIN) {
+    } else if shapes.iter().all(|s| s.0 <= 1 || s.1 <= drain_d()) {
         Form::Act
     } else {
         Form::Set
@@ -1274,8 +1295,8 @@ fn session_oracle(peers: &[(Mode, St)], avail: &[BTreeMap<u64, Vec<N>>], raw: &R
                     fails.push(format!("server {s} actor {a}: backward Full {lo}-{hi}"));
                     continue;
                 }
-                if hi - lo > CHUNK as u64 {
-                    fails.push(format!("server {s} actor {a}: Full {lo}-{hi} is larger than one chunk_range(_, {CHUNK}) block"));
+                if hi - lo > chunk_k() as u64 {
+                    fails.push(format!("server {s} actor {a}: Full {lo}-{hi} is larger than one chunk_range(_, {}) block", chunk_k()));
                 }
                 let seen = full_seen.entry(*a).or_default();
                 let mut dup = None;
@@ -1369,11 +1390,11 @@ fn session_oracle(peers: &[(Mode, St)], avail: &[BTreeMap<u64, Vec<N>>], raw: &R
     if avail.iter().filter(|av| !av.is_empty()).count() >= 2 {
         tags.push("session:2+servers-with-needs".into());
     }
-    if avail.iter().any(|av| queue_shape(av).1 > DRAIN) {
-        tags.push("session:some-queue>10(several-rounds)".into());
+    if avail.iter().any(|av| queue_shape(av).1 > drain_d()) {
+        tags.push("session:some-queue>d(several-rounds)".into());
     }
-    if avail.iter().filter(|av| queue_shape(av).1 > DRAIN).count() >= 2 {
-        tags.push("session:2+queues>10(interleaved-rounds)".into());
+    if avail.iter().filter(|av| queue_shape(av).1 > drain_d()).count() >= 2 {
+        tags.push("session:2+queues>d(interleaved-rounds)".into());
     }
     if raw.recv.iter().flatten().any(|m| m.len() == 1 && m[0].1.len() >= 2) {
         tags.push("session:chunk-split-by-dedup".into());
